@@ -231,7 +231,7 @@ pub fn pat_sx(i: &tau_engine::core::parser::Identifier) -> String {
     format!("{} {}", i.ignore_case, p)
 }
 
-fn value_sx(v: &Value) -> String {
+pub fn value_sx(v: &Value) -> String {
     match v {
         Value::Null => "null".into(),
         Value::Bool(b) => format!("{}", b),
